@@ -213,7 +213,10 @@ var c13RaceBlock = regexp.MustCompile(`(?s)WARNING: DATA RACE.*?================
 
 // c13Extra: the "-race" clause of C13.  Builds harness/c13race from the current tree with the race detector
 // and runs the 16-goroutine select/update stress for each selector.
-func c13Extra(tier string, rng *rand.Rand, res *Result) {
+func c13Extra(tier string, rng *rand.Rand, res *Result) { c13RaceStress(tier, rng, res, "all", "selector") }
+
+// c13RaceStress builds and runs harness/c13race; mode "hash" runs only the hash-routing-concurrent-with-updates part (C14)
+func c13RaceStress(tier string, rng *rand.Rand, res *Result, mode, sigRoot string) {
 	src, modfile, build := os.Getenv("VERIF_HARNESS_SRC"), os.Getenv("VERIF_MODFILE"), os.Getenv("VERIF_BUILD")
 	if src == "" || modfile == "" || build == "" {
 		res.Stats["race_stress"] = "skipped: VERIF_HARNESS_SRC / VERIF_MODFILE / VERIF_BUILD not set (harness not started by ./check)"
@@ -234,11 +237,11 @@ func c13Extra(tier string, rng *rand.Rand, res *Result) {
 		iters = 40000
 	}
 	seed := rng.Int63()
-	run := exec.Command(bin, fmt.Sprint(iters), fmt.Sprint(seed))
+	run := exec.Command(bin, fmt.Sprint(iters), fmt.Sprint(seed), mode)
 	run.Env = append(os.Environ(), "GORACE=halt_on_error=0 exitcode=0 history_size=2")
 	t1 := time.Now()
 	out, err := c13RunTimeout(run, 900*time.Second)
-	replay := map[string]interface{}{"cmd": "c13race " + fmt.Sprint(iters, " ", seed), "build": strings.Join(cmd.Args, " ")}
+	replay := map[string]interface{}{"cmd": "c13race " + fmt.Sprint(iters, " ", seed, " ", mode), "build": strings.Join(cmd.Args, " ")}
 	reports, inSel := 0, 0
 	for _, blk := range c13RaceBlock.FindAllString(out, -1) {
 		reports++
@@ -253,11 +256,12 @@ func c13Extra(tier string, rng *rand.Rand, res *Result) {
 					}
 				}
 				replay["report"] = c13Tail(blk, 2500)
-				res.Failures = append(res.Failures, Failure{Sig: "selector/" + kind + "/data-race", Desc: "the race detector reports a data race with a frame inside tars/selector while 16 goroutines select and update concurrently:\n" + c13Head(blk, 1800), Replay: replay})
+				res.Failures = append(res.Failures, Failure{Sig: sigRoot + "/" + kind + "/data-race", Desc: "the race detector reports a data race with a frame inside tars/selector while 16 goroutines select and update concurrently:\n" + c13Head(blk, 1800), Replay: replay})
 			}
 		}
 	}
 	var st struct {
+		HashConc   int      `json:"hash_lookups_concurrent_with_updates"`
 		Selections int      `json:"selections"`
 		Updates    int      `json:"updates"`
 		Problems   []string `json:"problems"`
@@ -269,16 +273,16 @@ func c13Extra(tier string, rng *rand.Rand, res *Result) {
 		}
 		_ = json.Unmarshal([]byte(line), &st)
 	} else {
-		res.Failures = append(res.Failures, Failure{Sig: "selector/concurrent/stress-died", Desc: fmt.Sprintf("the concurrent select/update stress did not finish (%v):\n%s", err, c13Tail(out, 2000)), Replay: replay})
+		res.Failures = append(res.Failures, Failure{Sig: sigRoot + "/concurrent/stress-died", Desc: fmt.Sprintf("the concurrent select/update stress did not finish (%v):\n%s", err, c13Tail(out, 2000)), Replay: replay})
 	}
 	for i, p := range st.Problems {
 		if i < 3 {
-			res.Failures = append(res.Failures, Failure{Sig: "selector/concurrent/" + strings.SplitN(p, ":", 2)[0], Desc: "under concurrent selections and updates: " + p, Replay: replay})
+			res.Failures = append(res.Failures, Failure{Sig: sigRoot + "/concurrent/" + strings.SplitN(p, ":", 2)[0], Desc: "under concurrent selections and updates: " + p, Replay: replay})
 		}
 	}
 	res.Evaluations += st.Selections + st.Updates
 	res.Traces += 8
-	res.Stats["race_stress"] = map[string]interface{}{"goroutines": 16, "selectors": 8, "iterations_per_goroutine": iters, "selections": st.Selections, "updates": st.Updates,
+	res.Stats["race_stress"] = map[string]interface{}{"mode": mode, "hash_lookups_concurrent_with_add_remove_refresh": st.HashConc, "goroutines": 16, "selectors": 8, "iterations_per_goroutine": iters, "selections": st.Selections, "updates": st.Updates,
 		"detector_reports": reports, "reports_in_tars_selector": inSel, "build_s": buildS, "run_s": time.Since(t1).Seconds()}
 }
 
